@@ -64,6 +64,7 @@ def landing_traj(rng, long=False):
             segs.append(dict(dur=d, x=[x + 10, nx - 10, nx], y=[ny], z=[zz + 50, nz + 50, nz], yaw=[]))
         x, y, zz = nx, ny, nz
     jit = rng.choice([0, 0, 0, 1, 2, 5, 50])
+    run_drop = 0
     nvert = rng.choice([1, 2, 3]) if long else rng.choice([0, 1, 1, 2, 3, 4])
     for i in range(nvert):
         drop = rng.choice([0, rng.randint(1, 3000), rng.randint(1, 200)])
@@ -88,5 +89,7 @@ def landing_traj(rng, long=False):
                     z1, z2 = zz, nz
             seg = dict(dur=d, x=[x + jx] if jx else [], y=[y + jy] if jy else [], z=[z1, z2, nz], yaw=[])
         segs.append(seg)
+        run_drop += zz - nz
         x, y, zz = x + jx, y + jy, nz
+    landing_traj.last_run_drop = run_drop          # descent of the generated vertical run, in stored units
     return dict(scale=scale, use_yaw=False, start=start, segs=segs), scale, jit
